@@ -1,7 +1,8 @@
 (* C16 — a concrete World (Vrf.v): the cyclic group Z/40 (ell = 5, cofactor 8), base point 8,
    small-order point 20, with a non-constant challenge hash.  It shows that the hypotheses of the
    algebraic theorems are satisfiable and carries the witness of the output-uniqueness refutation. *)
-From Coq Require Import ZArith Znumtheory Bool Lia Eqdep_dec.
+From Coq Require Import List NArith ZArith Znumtheory Bool Lia Eqdep_dec.
+From V.Base Require Import Hex.
 From V.C16 Require Import Vrf VrfProofs.
 Local Open Scope Z_scope.
 
@@ -119,4 +120,32 @@ Proof.
   split; [vm_compute; reflexivity|]. split; [vm_compute; reflexivity|]. split.
   - intro E. apply (f_equal val) in E. vm_compute in E. discriminate.
   - apply Z40_eq. vm_compute. reflexivity.
+Qed.
+
+(* an 80-byte codec for the toy world's honest proofs (Gamma in byte 0, c in byte 32, s in byte 48):
+   the hypotheses of C16_complete_after_transport are satisfiable *)
+Definition toy_enc (p : proof toy) : list N :=
+  let '(g, c, s) := p in
+  (Z.to_N (val g) :: repeat 0%N 31) ++ (Z.to_N c :: repeat 0%N 15) ++ (Z.to_N s :: repeat 0%N 31).
+Definition toy_dec (b : list N) : option (proof toy) :=
+  Some (mk (Z.of_N (nth 0 b 0%N)), Z.of_N (nth 32 b 0%N), Z.of_N (nth 48 b 0%N)).
+
+Lemma val_range a : 0 <= val a < n40.
+Proof. rewrite <- val_canon. apply Z.mod_pos_bound. unfold n40; lia. Qed.
+
+Lemma toy_codec x t m :
+  let p := prove toy x t m in
+  toy_dec (toy_enc p) = Some p /\ bytes_ok (toy_enc p) /\ length (toy_enc p) = 80%nat.
+Proof.
+  cbv zeta. unfold prove.
+  set (g := smul toy x _). set (c := Hc toy _ _ _ _). set (s := (_ mod ell toy)).
+  assert (Hc : 0 <= c < 4) by apply tHc_range.
+  assert (Hs : 0 <= s < 5) by (apply Z.mod_pos_bound; reflexivity).
+  pose proof (val_range g) as Hg. unfold n40 in Hg.
+  split; [|split].
+  - unfold toy_dec, toy_enc. cbn [repeat app nth]. rewrite !Z2N.id by lia.
+    change (mk (val g)) with (mk (val g)). rewrite mk_val. reflexivity.
+  - unfold toy_enc. apply bytes_okb_spec. cbn [repeat app bytes_okb forallb].
+    rewrite !andb_true_r. rewrite !andb_true_iff. repeat split; apply N.ltb_lt; lia.
+  - reflexivity.
 Qed.
